@@ -139,8 +139,15 @@ func (k Keeper) AllocateTokensToStakers(ctx sdk.Context, operatorAddress sdk.Acc
 				if curStakerPower, err := k.StakingKeeper.CalculateUSDValueForStaker(ctx, staker, avsAddress, operatorAddress.Bytes()); err != nil {
 					logger.Error("curStakerPower error", "error", err)
 				} else {
-					stakersPowerMap[staker] = curStakerPower
-					globalStakerAddressList = append(globalStakerAddressList, staker)
+					// a staker can be reached through several AVSs and assets of the same operator:
+					// list it once and accumulate its power, so that the fractions paid below are
+					// taken from the same powers that make up curTotalStakersPowers and sum to at most 1.
+					if prevPower, ok := stakersPowerMap[staker]; ok {
+						stakersPowerMap[staker] = prevPower.Add(curStakerPower)
+					} else {
+						stakersPowerMap[staker] = curStakerPower
+						globalStakerAddressList = append(globalStakerAddressList, staker)
+					}
 					curTotalStakersPowers = curTotalStakersPowers.Add(curStakerPower)
 				}
 			}
